@@ -13,7 +13,7 @@ use serde_json::json;
 
 pub fn profile() -> Profile {
     Profile { min_axes: 0, max_axes: 2, max_glyphs: 12, min_glyphs: 1, outlines: true, cubic: true, components: 5, transforms: true, mixed: true, sparse: 0,
-        order_variety: true, non_export: true, metrics_class_a: false, vertical: true, half_coords: true, maps: false, awkward_axes: false, multi_codepoints: true, ps_names: false, anchors: false, kerning: false, instances: false, flat_maps: false, point_axis: false, weird_names: false }
+        order_variety: true, non_export: true, metrics_class_a: false, vertical: true, half_coords: true, maps: false, awkward_axes: false, multi_codepoints: true, ps_names: false, anchors: false, kerning: false, instances: false, flat_maps: false, point_axis: false, weird_names: false, ..Profile::base() }
 }
 
 pub fn check_synth(ctx: &Ctx, genome: &[u16]) -> CaseReport {
